@@ -14,9 +14,15 @@ Mirrors, branch by branch,
 list with the same update discipline (`set`). Removing an operator stores priority 0 under the
 key (the key stays, as in `OpDecl::remove`); `current_op/3` hides priority-0 entries.
 
-`opStepImpl fx` is the code as written when `fx = ⟨false,false⟩`; the two flags switch on the two
-patches proposed in `notes/findings/C43-1.md` / `C43-2.md`. `opStep = opStepImpl ⟨true,true⟩` is
-the ISO-conforming step the property theorems are about.
+`opStepImpl fx` is the code as written when `fx = ⟨false,false⟩`. Flag `bar` switches on the patch
+of `notes/findings/C43-1.md` (the `'|'` restriction also for list elements). Flag `atomic` selects
+the other conforming treatment of an `Operator` *list* with a clashing element: ISO 8.14.3.1 says
+"in the event of an error being detected in an Operator list argument, it is undefined which, if
+any, of the atoms in the list is made an operator", so both "the elements before the offending one"
+(the code, `atomic = false`) and "none" (`atomic = true`) conform.
+`opStep = opStepImpl ⟨true,false⟩` is the ISO-conforming step the property theorems are about (the
+code with finding C43-1 repaired); `opStepAtomic = opStepImpl ⟨true,true⟩` is the all-or-nothing
+variant, proved to raise the same errors and to differ only in that ISO-undefined case.
 
 This file imports nothing (it is linked into the plain executable `drv_C43`).
 -/
@@ -186,10 +192,11 @@ def applyList (t : Table) (p : Nat) (s : Spec) : List String → Table × Option
     | .ok t' => applyList t' p s r
     | .error e => (t, some e)
 
-/-- which of the proposed patches are applied. -/
+/-- which variant of `op/3`. -/
 structure Fixes where
   bar : Bool      -- notes/findings/C43-1.md: the '|' restriction also for list elements
-  atomic : Bool   -- notes/findings/C43-2.md: check every element before the first update
+  atomic : Bool   -- check every list element for a clash before the first update (ISO 8.14.3.1
+                  -- leaves this open; the code does not)
   deriving DecidableEq, Repr, Inhabited
 
 /-- common tail of the atom branch and the list branch: `op_priority`, `op_specifier`, then
@@ -245,8 +252,11 @@ def opStepImpl (fx : Fixes) (t : Table) (c : Call) : Table × Option Err :=
 /-- the code as it is today. -/
 def asIs : Fixes := ⟨false, false⟩
 
-/-- the ISO-conforming step (code order, both patches applied). -/
-def opStep (t : Table) (c : Call) : Table × Option Err := opStepImpl ⟨true, true⟩ t c
+/-- the ISO-conforming step: the code with the patch of finding C43-1 applied. -/
+def opStep (t : Table) (c : Call) : Table × Option Err := opStepImpl ⟨true, false⟩ t c
+
+/-- the all-or-nothing variant: a list with a clashing element changes nothing. -/
+def opStepAtomic (t : Table) (c : Call) : Table × Option Err := opStepImpl ⟨true, true⟩ t c
 
 /-- the table after a history of calls (errors do not stop a history). -/
 def runOps (t : Table) (cs : List Call) : Table := cs.foldl (fun t c => (opStep t c).1) t
@@ -270,7 +280,7 @@ def Pat.matches (q : Pat) (x : Nat × Spec × String) : Bool :=
 /-- `get_next_op_db_ref` followed by `member(op(P,T,N), List)`. `fixed = false` is the code as
     it is: with the priority bound it reads the other two registers as atoms without looking at
     their tags, so an unbound specifier or name makes the lookup fail (modelled as no solution).
-    `fixed = true` sends that case through the general enumeration (notes/findings/C43-3.md). -/
+    `fixed = true` sends that case through the general enumeration (notes/findings/C43-2.md). -/
 def currentOpQ (fixed : Bool) (t : Table) (q : Pat) : List (Nat × Spec × String) :=
   let sols : List (Nat × Spec × String) :=
     match q.p with
